@@ -62,3 +62,8 @@ CHECKS["C04"] = {
  "text": "Exhaustive bounded exploration with a solver-expressed disjointness constraint (M2): per-side operation sequences (1+1, 2+1; thorough 2+2) over 14 operation kinds whose touched "
          "object sets are constrained disjoint in z3, every interleaving and schedule slot, through the real engine; both quiet-state trees must equal base + both deltas exactly.",
  "technique": "bounded exhaustive exploration; per-side operation indices are z3 integers under a disjointness constraint, interleavings and slots enumerated by solver-decided branching over the real engine; reference-tree oracle"}
+CHECKS["C02"] = {
+ "text": "Exhaustive bounded exploration with solver-enumerated choices (M2): two-sided histories of 2-3 operations on a shared name (same-path creates, edit/edit, edit/delete, "
+         "delete/recreate, file-vs-folder, rename away, one copy becoming unreadable) with every schedule slot, through the real engine, under a version-provenance oracle: no "
+         "content a user wrote and nobody deleted or overwrote may be missing from both sides at quiescence; unreadable content is never copied, the good copy survives.",
+ "technique": "bounded exhaustive exploration; two-sided operation histories, corrupt-read placement and schedule slots are z3 integer choices enumerated by solver-decided branching over the real engine; version-provenance oracle"}
